@@ -33,6 +33,162 @@ func runErrCtor(r *core.Run) {
 		r.BrokenAnchor("parse.NewError / NewErrorLexer / Position")
 		return
 	}
+	// 0. the two constructors may share one builder that works on an Input (newErrorInput(z, offset, …) with the
+	// position computed by the core of Position): the same facts, read along that shape
+	sharedDone := errCtorShared(r, newErr, newErrLex, position)
+	if !sharedDone {
+		errCtorClassic(r, newErr, newErrLex, position)
+	}
+	errCtorSites(r, newErr, newErrLex)
+}
+
+// errCtorShared: Position is `return core(NewInput(r), offset)`; exactly one function b builds parse.Error, taking
+// Line/Column/Context from core(z, offset) on its own parameters; NewError calls b(NewInput(r), offset, …) and
+// NewErrorLexer calls b(NewInputBytes(l.Bytes()), l.Offset(), …). Returns false when the code does not have this shape.
+func errCtorShared(r *core.Run, newErr, newErrLex, position *ssa.Function) bool {
+	// the core of Position
+	var posCore *ssa.Function
+	if ret := singleReturn(position); ret != nil && len(position.Blocks) == 1 {
+		var call *ssa.Call
+		all := true
+		for i, rv := range ret.Results {
+			ex, ok := rv.(*ssa.Extract)
+			if !ok || ex.Index != i {
+				all = false
+				break
+			}
+			c, isC := ex.Tuple.(*ssa.Call)
+			if !isC || (call != nil && c != call) {
+				all = false
+				break
+			}
+			call = c
+		}
+		if all && call != nil && len(call.Call.Args) == 2 && call.Call.Args[1] == ssa.Value(position.Params[1]) {
+			if in, ok := call.Call.Args[0].(*ssa.Call); ok {
+				if f := in.Call.StaticCallee(); f != nil && f.Name() == "NewInput" && len(in.Call.Args) == 1 && in.Call.Args[0] == ssa.Value(position.Params[0]) {
+					posCore = call.Call.StaticCallee()
+				}
+			}
+		}
+	}
+	if posCore == nil {
+		return false
+	}
+	// the builders
+	var builders []*ssa.Function
+	for _, fn := range allModuleFuncs(r) {
+		for _, b := range fn.Blocks {
+			for _, in := range b.Instrs {
+				if al, ok := in.(*ssa.Alloc); ok && isParseError(al.Type()) {
+					found := false
+					for _, x := range builders {
+						if x == fn {
+							found = true
+						}
+					}
+					if !found {
+						builders = append(builders, fn)
+					}
+				}
+			}
+		}
+	}
+	if len(builders) != 1 || builders[0] == newErr || builders[0].Object() == nil || builders[0].Object().Exported() {
+		return false
+	}
+	b := builders[0]
+	for _, fn := range allModuleFuncs(r) {
+		if fn == b {
+			continue
+		}
+		for _, st := range allStores(fn) {
+			if fa, ok := st.Addr.(*ssa.FieldAddr); ok && isParseError(fa.X.Type()) {
+				r.Fail("Error field written in "+fnLabel(fn), st.Pos(), "a field of parse.Error is assigned outside its builder")
+			}
+		}
+	}
+	r.OK("parse.Error built only by NewError", b.Pos(), "by the shared builder "+b.Name())
+	// the builder: core(z, offset) on its own parameters, results into Line/Column/Context
+	var pc *ssa.Call
+	for _, blk := range b.Blocks {
+		for _, in := range blk.Instrs {
+			if c, ok := in.(*ssa.Call); ok && c.Call.StaticCallee() == posCore {
+				pc = c
+			}
+		}
+	}
+	pi, po := -1, -1
+	if pc != nil && len(pc.Call.Args) == 2 {
+		for i, q := range b.Params {
+			if ssa.Value(q) == pc.Call.Args[0] {
+				pi = i
+			}
+			if ssa.Value(q) == pc.Call.Args[1] {
+				po = i
+			}
+		}
+	}
+	r.Check(pc != nil && pi >= 0 && po >= 0, "NewError calls Position(r, offset)", b.Pos(), "", "the builder does not compute the position with the core of Position on its own input and offset parameters")
+	if pc == nil || pi < 0 || po < 0 {
+		return true
+	}
+	want := map[string]int{"Line": 0, "Column": 1, "Context": 2}
+	got := 0
+	for _, st := range allStores(b) {
+		fa, ok := st.Addr.(*ssa.FieldAddr)
+		if !ok || !isParseError(fa.X.Type()) {
+			continue
+		}
+		name := fieldName(fa.X.Type(), fa.Field)
+		idx, tracked := want[name]
+		if !tracked {
+			continue
+		}
+		ex, ok := st.Val.(*ssa.Extract)
+		r.Check(ok && ex.Tuple == pc && ex.Index == idx, "NewError."+name+" from Position", st.Pos(), "", fmt.Sprintf("Error.%s is not result #%d of the position function", name, idx))
+		got++
+	}
+	r.Check(got == 3, "NewError sets Line, Column, Context", b.Pos(), "", fmt.Sprintf("%d of the three position fields are assigned", got))
+	// the two constructors
+	callOf := func(f *ssa.Function) *ssa.Call {
+		var out *ssa.Call
+		for _, blk := range f.Blocks {
+			for _, in := range blk.Instrs {
+				if c, ok := in.(*ssa.Call); ok && c.Call.StaticCallee() == b {
+					out = c
+				}
+			}
+		}
+		return out
+	}
+	okNE := false
+	if c := callOf(newErr); c != nil && pi < len(c.Call.Args) && po < len(c.Call.Args) {
+		if in, ok := c.Call.Args[pi].(*ssa.Call); ok {
+			if f := in.Call.StaticCallee(); f != nil && f.Name() == "NewInput" && len(in.Call.Args) == 1 && in.Call.Args[0] == ssa.Value(newErr.Params[0]) {
+				okNE = c.Call.Args[po] == ssa.Value(newErr.Params[1])
+			}
+		}
+	}
+	r.Check(okNE, "NewError calls Position(r, offset)", newErr.Pos(), "through the shared builder", "NewError does not hand its own reader (as NewInput(r)) and offset to the builder")
+	okNL := false
+	if c := callOf(newErrLex); c != nil && pi < len(c.Call.Args) && po < len(c.Call.Args) {
+		l := newErrLex.Params[0]
+		if in, ok := c.Call.Args[pi].(*ssa.Call); ok {
+			if f := in.Call.StaticCallee(); f != nil && f.Name() == "NewInputBytes" && len(in.Call.Args) == 1 {
+				if bc, isB := in.Call.Args[0].(*ssa.Call); isB {
+					if g := bc.Call.StaticCallee(); g != nil && g.Name() == "Bytes" && len(bc.Call.Args) == 1 && bc.Call.Args[0] == ssa.Value(l) {
+						okNL = linOf(c.Call.Args[po]).equal(linAtom(l.Name() + ".Offset()"))
+					}
+				}
+			}
+		}
+	}
+	r.Check(okNL, "NewErrorLexer uses the cursor's Bytes() and Offset()", newErrLex.Pos(), "", "NewErrorLexer does not report the cursor's current Offset() over the cursor's own Bytes()")
+	return true
+}
+
+func errCtorClassic(r *core.Run, newErr, newErrLex, position *ssa.Function) {
 	// 1. who may construct / write a parse.Error
 	for _, fn := range allModuleFuncs(r) {
 		for _, b := range fn.Blocks {
@@ -112,6 +268,9 @@ func runErrCtor(r *core.Run) {
 		}
 		r.Check(ok, "NewErrorLexer uses the cursor's Bytes() and Offset()", newErrLex.Pos(), "", "NewErrorLexer does not report the cursor's current Offset() over the cursor's own Bytes()")
 	}
+}
+
+func errCtorSites(r *core.Run, newErr, newErrLex *ssa.Function) {
 	// 4. every call of NewErrorLexer passes the Input of the lexer/parser that reports the error
 	sites := 0
 	for _, fn := range allModuleFuncs(r) {
